@@ -158,10 +158,12 @@ def st_annotation_slice(tier):
         lo = draw(st.integers(-big, big))
         span = draw(st.integers(1, big))
         feats = draw(st.lists(st_feature(lo - 5, lo + span + 5), max_size=5))
-        a = draw(st.one_of(st.none(), st.integers(lo - 8, lo + span + 8)))
-        b = draw(st.one_of(st.none(), st.integers(lo - 8, lo + span + 8)))
-        if a is not None and b is not None and a > b:
+        a = draw(st.one_of(st.integers(lo - 8, lo + span + 8), st.none(), st.integers(lo - 8, lo + span + 8)))
+        b = draw(st.one_of(st.integers(lo - 8, lo + span + 8), st.none(), st.integers(lo - 8, lo + span + 8)))
+        if a is not None and b is not None and a > b and draw(st.integers(0, 7)) != 0:
             a, b = b, a
+        if a is not None and a == b and draw(st.integers(0, 3)) != 0:
+            b = a + draw(st.integers(1, span))
         return {"features": feats, "start": a, "stop": b, "step": draw(st.sampled_from([None, 1, 2, -1]))}
 
     return gen()
@@ -171,12 +173,12 @@ def st_seq(min_size=1, max_size=40):
     return st.text("ACGT", min_size=min_size, max_size=max_size)
 
 
-def st_annotseq(tier, same_strand=False, inside=False, max_feats=4):
+def st_annotseq(tier, same_strand=False, inside=False, max_feats=4, minlen=1):
     maxlen = 40 if tier == "quick" else 100
 
     @st.composite
     def gen(draw):
-        seq = draw(st_seq(1, maxlen))
+        seq = draw(st_seq(minlen, maxlen))
         start = draw(st.one_of(st.just(1), st.integers(1, 1000)))
         n = len(seq)
         lo, hi = start, start + n - 1
@@ -198,10 +200,13 @@ def st_annotseq_slice(tier):
         base = draw(st_annotseq(tier))
         lo = base["seqstart"]
         hi_excl = lo + len(base["seq"])
-        a = draw(st.one_of(st.none(), st.integers(lo, hi_excl)))
-        b = draw(st.one_of(st.none(), st.integers(lo, hi_excl)))
+        a = draw(st.one_of(st.integers(lo, hi_excl), st.none(), st.integers(lo, hi_excl)))
+        b = draw(st.one_of(st.integers(lo, hi_excl), st.none(), st.integers(lo, hi_excl)))
         if a is not None and b is not None and a > b:
             a, b = b, a
+        if a is not None and a == b and draw(st.integers(0, 3)) != 0:
+            a = draw(st.integers(lo, a))
+            b = draw(st.integers(b, hi_excl))
         base["start"] = a
         base["stop"] = b
         return base
@@ -212,12 +217,16 @@ def st_annotseq_slice(tier):
 def st_feature_index(tier):
     @st.composite
     def gen(draw):
-        base = draw(st_annotseq(tier, inside=True, max_feats=2))
+        base = draw(st_annotseq(tier, inside=True, max_feats=2, minlen=draw(st.sampled_from([1, 2, 8, 8]))))
         lo = base["seqstart"]
         hi = lo + len(base["seq"]) - 1
         # the feature used as index: disjoint locations built from sorted cut points
-        k = draw(st.integers(1, 4))
-        pts = sorted(draw(st.lists(st.integers(lo, hi), min_size=2 * k, max_size=2 * k)))
+        k = draw(st.sampled_from([1, 2, 2, 3, 3, 4]))
+        k = max(1, min(k, (hi - lo + 1) // 2))
+        if hi - lo + 1 >= 2 * k:
+            pts = sorted(draw(st.lists(st.integers(lo, hi), min_size=2 * k, max_size=2 * k, unique=True)))
+        else:
+            pts = [lo, lo]
         mixed = draw(st.integers(0, 9)) == 0
         strand = draw(st.sampled_from("+-"))
         locs = []
@@ -267,10 +276,7 @@ def run_annotation_slice(case):
     annot = _mk_annotation(case["features"])
     a, b = case["start"], case["stop"]
     if a is not None and b is not None and a >= b:
-        # empty slices are outside the stated domain ("slices [a:b] within the sequence")
-        o.invalid = True
         o.label("empty_slice")
-        return o
     lo = a
     hi = None if b is None else b - 1
     want, cut = model_slice(case["features"], lo, hi)
@@ -304,9 +310,7 @@ def run_annotseq_slice(case):
     n = len(case["seq"])
     a, b = case["start"], case["stop"]
     if a is not None and b is not None and a >= b:
-        o.invalid = True
         o.label("empty_slice")
-        return o
     sub = aseq[a:b]
     ia = 0 if a is None else a - s0
     ib = n if b is None else b - s0
